@@ -118,7 +118,7 @@ def resolves_like_reference(s: str) -> bool:
     pre: len(s) <= R.N(3)
     pre: _cell(s)
     pre: R.ascii_printable(s)
-    pre: not _kf_hash_term(s, [""])
+    pre: not R.known("C03-hash-term", _kf_hash_term(s, [""]))
     post: _
     """
     t = HedTag(s, MINI)
@@ -141,7 +141,6 @@ def forms_inverse(s: str) -> bool:
     pre: len(s) <= R.N(3)
     pre: _cell(s)
     pre: R.ascii_printable(s)
-    pre: not _kf_hash_term(s, [""])
     post: _
     """
     t = HedTag(s, MINI)
@@ -200,7 +199,7 @@ def namespace_variants(k: int, s: str) -> bool:
     pre: _len_ok(s)
     pre: _cell(s)
     pre: R.ascii_printable(s)
-    pre: not _kf_hash_term(_PFX[k] + s, _PFX)
+    pre: not R.known("C03-hash-term", _kf_hash_term(_PFX[k] + s, _PFX))
     post: _
     """
     text = _PFX[k] + s
@@ -237,7 +236,7 @@ def string_forms(s: str) -> bool:
     pre: _cell(s)
     pre: R.ascii_printable(s)
     pre: _plain_tag_text(s)
-    pre: not _kf_hash_term(s, _PFX)
+    pre: not R.known("C03-hash-term", _kf_hash_term(s, _PFX))
     post: _
     """
     text = "(" + s + "),p:b/c"
@@ -285,7 +284,7 @@ _X_Y_B = "; plus every s = x + '/' + y with single printable-ASCII characters x,
 
 HARNESSES = [
     R.H("resolves_like_reference", _T_FIND + _T_TAG,
-        quick=R.tier(cells=_cells(4, 3), env={"VP_N": 4}, timeout=300, bound=_MINI_B % 4),
+        quick=R.tier(cells=_cells(4, 3), env={"VP_N": 4}, timeout=600, bound=_MINI_B % 4),
         thorough=R.tier(cells=_cells(6, 3, fine_from=5), env={"VP_N": 6}, timeout=1500, path_timeout=60,
                         bound=_MINI_B % 6),
         what="HedTag(s) is identified iff the reference tree walk resolves s, as the same node (the entry object "
@@ -295,14 +294,14 @@ HARNESSES = [
         oracle="models/mini_rules.py resolve_ns (left-to-right tree walk over the MediaWiki tag tree)",
         stubs=_STUBS, outside=_OUT),
     R.H("forms_inverse", _T_FIND + _T_TAG,
-        quick=R.tier(cells=_cells(4, 3), env={"VP_N": 4}, timeout=300, bound=_MINI_B % 4),
+        quick=R.tier(cells=_cells(4, 3), env={"VP_N": 4}, timeout=600, bound=_MINI_B % 4),
         thorough=R.tier(cells=_cells(5, 3, fine_from=5), env={"VP_N": 5}, timeout=1500, path_timeout=60,
                         bound=_MINI_B % 5),
         what="for identified t: HedTag(long(t)) and HedTag(short(t)) are the same entry object as t; "
              "long(short(t)) == long(t), short(long(t)) == short(t), both idempotent; the suffix is verbatim",
         oracle="second and third run of the real code on its own output", stubs=_STUBS, outside=_OUT),
     R.H("case_variants", _T_FIND + _T_TAG,
-        quick=R.tier(cells=_cells(3, 3), env={"VP_N": 3}, timeout=300, bound=_MINI_B % 3),
+        quick=R.tier(cells=_cells(3, 3), env={"VP_N": 3}, timeout=600, bound=_MINI_B % 3),
         thorough=R.tier(cells=_cells(5, 3, fine_from=5), env={"VP_N": 5}, timeout=1500, path_timeout=60,
                         bound=_MINI_B % 5),
         what="s.lower(), s.upper() and s.swapcase() are identified as the same entry object as s (or all are "
@@ -311,7 +310,7 @@ HARNESSES = [
         stubs=_STUBS + ["chx_case: ASCII-exact upper()/swapcase() model for CrossHair strings"], outside=_OUT),
     R.H("namespace_variants", _T_FIND + _T_TAG + _T_GROUP,
         quick=R.tier(cells=R.product_cells(R.int_cells("VP_K", 0, 1), _cells(2, 9) + _X_Y), env={"VP_N": 2},
-                     timeout=300, bound=(_NS_B % 2) + _X_Y_B),
+                     timeout=600, bound=(_NS_B % 2) + _X_Y_B),
         thorough=R.tier(cells=R.product_cells(R.int_cells("VP_K", 0, 1), _cells(4, 3, fine_from=4)),
                         env={"VP_N": 4}, timeout=1500, path_timeout=60, bound=_NS_B % 4),
         what="on the schema group: ns + s is identified iff the reference resolves it, in the schema owning the "
@@ -321,7 +320,8 @@ HARNESSES = [
     R.H("string_forms", _T_FIND + _T_TAG + _T_GROUP + ["hed.models.hed_group.HedGroup.get_as_form",
                                                       "hed.models.hed_string.HedString.get_as_long",
                                                       "hed.models.hed_string.HedString.get_as_short"],
-        quick=R.tier(cells=_cells(2, 9, minlen=1) + [dict(_X_Y[0], VP_G0=g) for g in range(len(_COARSE) + 1)], env={"VP_N": 2}, timeout=300, bound=(_SF_B % 2) + _X_Y_B),
+        quick=R.tier(cells=_cells(2, 9, minlen=1) + [dict(_X_Y[0], VP_G0=g) for g in range(len(_COARSE) + 1)],
+                     env={"VP_N": 2}, timeout=600, bound=(_SF_B % 2) + _X_Y_B),
         thorough=R.tier(cells=_cells(3, 9, fine_from=3, minlen=1), env={"VP_N": 3}, timeout=1500, path_timeout=60,
                         bound=_SF_B % 3),
         what="get_as_long/get_as_short/str of a parsed annotation are the reference long/short forms of its tags "
